@@ -1188,6 +1188,12 @@ class DomainMapping(CanBehaveLikeAVariable[T], ABC):
         self._yield_when_false_ = yield_when_false
         self._child_._eval_parent_ = self
         if self._id_ in sources:
+            if self._is_a_condition_:
+                # already bound (the same expression is also an operand earlier in the row): here it is still read as a boolean.
+                truth = bool(sources[self._id_].value)
+                self._is_false_ = truth if self._invert_ else not truth
+                if self._is_false_ and not yield_when_false:
+                    return
             yield sources
             return
         is_condition = self._is_a_condition_
